@@ -39,6 +39,8 @@ def plan(tier, seed):
     # identifiers that are heads/tails of one another (r/rr, x/xx, k1/k10) around multiply driven inputs, which PyRates
     # rewrites textually (parser.replace)
     cases += [{'family': 'containing_names', 'cseed': rnd.randrange(1 << 30)} for _ in range(40 if tier == 'quick' else 1200)]
+    # an operator that declares X before X_v1 next to another operator with an X (chained renaming of generated labels)
+    cases += [{'family': 'chained_names', 'cseed': rnd.randrange(1 << 30)} for _ in range(12 if tier == 'quick' else 200)]
     # edges through EdgeTemplates (algebraic edge operators with per-edge constants)
     cases += [{'family': 'edge_templates', 'cseed': rnd.randrange(1 << 30)} for _ in range(50 if tier == 'quick' else 1500)]
     # wide groups (11-16 structurally identical nodes, also with a single-node type): default vectorized build included
@@ -70,6 +72,10 @@ def make_spec(case, opened):
     if fam == 'wide':
         from vp.props import c04
         return c04.make_spec({'cseed': case['cseed'], 'family': 'wide'}, set(opened) | open_risks('C04'))
+    if fam == 'chained_names':
+        spec = gen.gen_chained_names_net(rnd)
+        f, r = gen.features(spec)
+        return spec, sorted(set(f) | {'declares_x_before_x_v1'}), [x for x in r if x != 'user_name_like_generated' or x in opened]
     if fam == 'containing_names':
         return gen.gen_net(rnd, pool=CONTAINING_POOL, forbid=opened, n_nodes=rnd.choice([1, 2, 3]),
                            edge_density=rnd.choice([0.6, 1.0]),
